@@ -780,6 +780,6 @@ func init() {
 		Run:            c09Run,
 		Replay:         c09Replay,
 		QuickBudget:    150 * time.Second,
-		ThoroughBudget: 20 * time.Minute,
+		ThoroughBudget: 15 * time.Minute,
 	})
 }
